@@ -44,6 +44,7 @@ const K_F8: &str = "C02:reopen-first-delete-published-by-merge";
 /// one; `skip_to(first opstamp of the segment)` has then already passed the deletes of the batch
 const K_F10: &str = "C02:producer-race-skip-to-passes-own-delete";
 const K_F9: &str = "C02:stale-updater-task-overwrites-meta-after-rollback";
+const K_F11: &str = "C02:reused-opstamp-advance-deletes-early-return";
 
 fn mix(mut z: u64) -> u64 {
     z = z.wrapping_add(0x9E37_79B9_7F4A_7C15);
@@ -1944,6 +1945,142 @@ fn forced_schedule(ctx: &mut Ctx, pair_idx: usize, schedule: u64, cut: u32) {
     }
 }
 
+/// The early return of `advance_deletes` after a reverted stamper
+/// (Lean: `C02_stale_catchup_lost_delete_counterexample`).  `delete_all_documents` reverts the
+/// stamper to the stale `committed_opstamp`, below the opstamp T of meta.json; while a merge of
+/// two new uncommitted segments is running, deletes are pushed: `end_merge` finds one older than
+/// T, catches the merged segment up "to the last commit" and records `delete_opstamp = T`; filler
+/// operations bring the reused opstamps back to T - `slack`, a last delete of a document of the
+/// merged segment follows, and the commit gets exactly T: `advance_deletes` says "already
+/// up-to-date" and the delete is not applied.
+fn stale_catchup(ctx: &mut Ctx, slack: u64) {
+    struct Out {
+        t: u64,
+        c0: u64,
+        rd: u64,
+        rc: u64,
+        victim: u64,
+        sacrificed: Vec<u64>,
+        published: Vec<u64>,
+        expected: Vec<u64>,
+    }
+    let res = catch_unwind(AssertUnwindSafe(|| -> Option<Out> {
+        let mut sb = Schema::builder();
+        let id = sb.add_u64_field("id", FAST | INDEXED | STORED);
+        let body = sb.add_text_field("body", TEXT);
+        let index = Index::create(RamDirectory::create(), sb.build(), Default::default()).ok()?;
+        tantivy::verif::set_segment_cut_docs(0);
+        let mut w: IndexWriter = index.writer_with_num_threads(1, 200_000_000).ok()?;
+        w.set_merge_policy(Box::new(NoMergePolicy));
+        let tiny = |i: u64| {
+            let mut d = TantivyDocument::default();
+            d.add_u64(id, i);
+            d
+        };
+        let fat = |i: u64| {
+            let mut d = TantivyDocument::default();
+            d.add_u64(id, i);
+            let mut s = String::new();
+            for k in 0..500 {
+                s.push_str(&format!("u{i}x{k} "));
+            }
+            d.add_text(body, s);
+            d
+        };
+        for i in 0..2500u64 {
+            w.add_document(tiny(100_000 + i)).ok()?;
+        }
+        let t = w.commit().ok()?;
+        let c0 = w.delete_all_documents().ok()?;
+        let mut p = LogMergePolicy::default();
+        p.set_min_num_segments(2);
+        w.set_merge_policy(Box::new(p));
+        let per: u64 = 250;
+        tantivy::verif::set_segment_cut_docs(per as u32);
+        for i in 0..2 * per {
+            w.add_document(fat(i)).ok()?;
+        }
+        // deletes spread over the time the worker indexes and the merge runs
+        let mut sacrificed = vec![];
+        for k in 0..200u64 {
+            w.delete_term(Term::from_field_u64(id, k));
+            sacrificed.push(k);
+            std::thread::sleep(std::time::Duration::from_millis(4));
+        }
+        std::thread::sleep(std::time::Duration::from_millis(300));
+        w.set_merge_policy(Box::new(NoMergePolicy));
+        tantivy::verif::set_segment_cut_docs(0);
+        let mut filler = vec![];
+        let mut n = 0u64;
+        loop {
+            let r = w.add_document(tiny(200_000 + n)).ok()?;
+            filler.push(200_000 + n);
+            n += 1;
+            if r + slack + 1 >= t || n > 100_000 {
+                break;
+            }
+        }
+        let victim = per - 1;
+        let rd = w.delete_term(Term::from_field_u64(id, victim));
+        let rc = w.commit().ok()?;
+        let reader: tantivy::IndexReader = index.reader_builder().reload_policy(ReloadPolicy::Manual).try_into().ok()?;
+        reader.reload().ok()?;
+        let searcher = reader.searcher();
+        let mut published = vec![];
+        for sr in searcher.segment_readers() {
+            let col = sr.fast_fields().u64("id").ok()?;
+            for doc in sr.doc_ids_alive() {
+                published.push(col.first(doc)?);
+            }
+        }
+        published.sort();
+        let mut expected: Vec<u64> = (0..2 * per).filter(|i| !sacrificed.contains(i) && *i != victim).collect();
+        expected.extend(filler);
+        expected.sort();
+        Some(Out { t, c0, rd, rc, victim, sacrificed, published, expected })
+    }));
+    tantivy::verif::set_segment_cut_docs(0);
+    let case = json!({"kind": "stale-catchup", "slack": slack});
+    ctx.report.case(&format!("stale-catchup|{slack}"), true);
+    let o = match res {
+        Ok(Some(o)) => o,
+        Ok(None) => {
+            ctx.report.count("stale-catchup:setup-failed");
+            return;
+        }
+        Err(_) => {
+            ctx.report.violation("oracle", "C02:panic", "panic in the stale catch-up scenario".into(), case);
+            return;
+        }
+    };
+    if std::env::var("C02_STALE").is_ok() {
+        eprintln!("stale-catchup slack {slack}: T={} delete_all returned {} last delete {} commit {} extra {:?} missing {:?}", o.t, o.c0, o.rd, o.rc,
+            o.published.iter().filter(|i| !o.expected.contains(i)).collect::<Vec<_>>(), o.expected.iter().filter(|i| !o.published.contains(i)).take(5).collect::<Vec<_>>());
+    }
+    if o.rc != o.t {
+        ctx.report.count("stale-catchup:commit-opstamp-not-reused");
+    } else {
+        ctx.report.count("stale-catchup:commit-opstamp-reused");
+    }
+    if o.published == o.expected {
+        ctx.report.count("stale-catchup:sequential");
+        return;
+    }
+    let extra: Vec<u64> = o.published.iter().filter(|i| !o.expected.contains(i)).cloned().collect();
+    let missing = o.expected.iter().any(|i| !o.published.contains(i));
+    // signature: the commit got the opstamp of the earlier commit again, the stamper had been
+    // reverted below it, nothing is missing, and the extra documents are documents of the merged
+    // segment whose deletes were still pending, the last one among them
+    let sig = o.rc == o.t && o.c0 < o.t && o.rd < o.t && !missing && extra.contains(&o.victim)
+        && extra.iter().all(|i| *i == o.victim || o.sacrificed.contains(i));
+    if sig {
+        ctx.report.count("stale-catchup:reproduced");
+        ctx.report.violation("oracle", K_F11, format!("commit {} (meta.json), delete_all_documents reverted the stamper to {}; two uncommitted segments were merged while deletes were pushed (end_merge caught the merged segment up to {} and recorded it as its delete_opstamp); the reused opstamps reached {} again: delete_term(id {}) returned {}, the commit {} - advance_deletes returned early, documents {:?} whose deletes are older than the commit are published", o.t, o.c0, o.t, o.t, o.victim, o.rd, o.rc, extra), case);
+    } else {
+        ctx.report.violation("oracle", "C02:stale-catchup-not-sequential", format!("T={} delete_all returned {} last delete {} commit {}: extra {:?}, missing some: {}", o.t, o.c0, o.rd, o.rc, extra, missing), case);
+    }
+}
+
 /// F10 searched for directly: producer A issues batches `[add x, delete x, add y]`, producer B
 /// single adds, one indexing worker, every batch its own segment (so every batch starts with a
 /// `skip_to`). Whatever the interleaving, no `x` may be published.
@@ -2179,6 +2316,10 @@ pub fn run(ctx: &mut Ctx) {
             forced_schedule(ctx, case["pair"].as_u64().unwrap_or(0) as usize, case["schedule"].as_u64().unwrap_or(2), case["cut"].as_u64().unwrap_or(0) as u32);
             return;
         }
+        if case["kind"] == "stale-catchup" {
+            stale_catchup(ctx, case["slack"].as_u64().unwrap_or(2));
+            return;
+        }
         if case["kind"] == "producer-race" {
             producer_race(ctx, case["rounds"].as_u64().unwrap_or(400));
             return;
@@ -2202,6 +2343,14 @@ pub fn run(ctx: &mut Ctx) {
     // rollback() while a task of the old segment updater is running (F9), gated deterministically
     for _ in 0..ctx.budget(2, 10) {
         lifecycle_race(ctx);
+    }
+    // the early return of advance_deletes when reused opstamps meet a recorded delete_opstamp
+    // (the commit draws its stamp after the registration of the last segment drew one: slack 2)
+    stale_catchup(ctx, 2);
+    if ctx.thorough() {
+        for slack in 1..4 {
+            stale_catchup(ctx, slack);
+        }
     }
     // forced producer schedules: every pair of calls, every order of {stamp, publish} x 2
     for pair in 0..forced_pairs().len() {
